@@ -92,6 +92,129 @@ theorem C17_unsupported (fmt : List Char) (c : Char) (hmem : Item.dir c ∈ scan
   rw [ht]
   exact ⟨rfl, rfl⟩
 
+/-- **C17 (strptime inverts strftime)**: let `fmt` be a format over the supported directives and
+    literal text that *determines* date, time and zone (`Determined`: no field named twice; either
+    `%s` is the only conversion, or year, hour, minute, second, zone and exactly one of month + day /
+    day-of-year are named — in any order, with any literal text, adjacent numeric conversions
+    included).  Then for every valid point `p` with a civil year in 0000–9999, in any representation,
+    offset and mode, whatever the parser's assumed zone and the process-local zone `loc`:
+    `strftime` succeeds, and `strptime` on its output with the same format returns a valid point at the
+    *same instant* — with `p`'s own offset and clock fields, except for `%s`, which comes back in the
+    local zone. -/
+theorem C17_strptime (m : Mode) (p : TP) (hv : p.Valid m) (c : Civil) (hc : IsCivil m p c)
+    (hy : 0 ≤ c.year ∧ c.year ≤ 9999) (fmt : List Char) (items : List FItem)
+    (hf : parseFmt fmt = some items) (hd : Determined items) (cfg : PCfg) (loc : TZ) (hloc : loc.Valid) :
+    ∃ text q, strftime m p fmt = .ok text ∧ strptime m cfg loc text fmt = .ok q ∧
+      q.inst m = p.inst m ∧ q.Valid m ∧
+      (fieldsOf items = [.unix] → q.tz = loc) ∧
+      (fieldsOf items ≠ [.unix] → q.tz = p.tz ∧ q.hh = p.hh ∧ q.mi = p.mi ∧ q.ss = p.ss) := by
+  obtain ⟨ht, _⟩ := translate_scan fmt items hf
+  obtain ⟨p', _, hv', _, hn, h1, h2, h3, h4⟩ := forDump_spec m p hv
+  have hc' := isCivil_transfer m p p' c hc hn h1 h2 h3 h4
+  have hinst : p'.inst m = p.inst m := by
+    have a := hc.2.2.2.2.2.2.2
+    have b := hc'.2.2.2.2.2.2.2
+    omega
+  have hren := render_items m p' hv' c hc' items (fun _ => hy)
+  have hnd := nodup_fldsOf_items items hd.1
+  have hmatch := match_rendered (ctxOf p' c) (piecesOfItems items)
+    (fun f _ => fits_all m p' hv' c hc' hy f) hnd
+  rw [hren] at hmatch
+  have hstrp : ∀ q, assemble m cfg loc (bindingsOf (ctxOf p' c) (piecesOfItems items)) = .ok q →
+      strptime m cfg loc (posix c items) fmt = .ok q := by
+    intro q hq
+    unfold strptime
+    rw [ht]
+    simp only [hasDup_false _ hnd, Bool.false_eq_true, ↓reduceIte, hmatch, hq]
+  refine ⟨posix c items, ?_⟩
+  have hstrf := C17_strftime m p hv c hc hy fmt items hf
+  have mem := fun f => mem_fldsOf_items f items
+  rcases hd.2 with hu | ⟨hnu, g1, g2, g3, g4, g5, g6⟩
+  · obtain ⟨q, hq, hi, hs, htz⟩ := assemble_unix m p' c hc'.2.2.2.2.2.2.2 cfg loc hloc (piecesOfItems items)
+      ((mem .unix).mpr (by rw [hu]; simp [sf])) (fun h => by have := (mem .tzSign).mp h; rw [hu] at this; simp [sf] at this)
+    exact ⟨q, hstrf, hstrp q hq, by rw [hi, hinst], hs.1, fun _ => htz, fun hne => absurd hu hne⟩
+  · obtain ⟨q, hq, hi, hqv, e1, e2, e3, e4, _⟩ := assemble_full m p' hv' c hc' hy cfg loc (piecesOfItems items)
+      (fun h => hnu ((mem .unix).mp h)) ((mem .century).mpr g1) ((mem .yearOfCentury).mpr g1)
+      ((mem .hourOfDay).mpr g2) ((mem .minuteOfHour).mpr g3) ((mem .secondOfMinute).mpr g4)
+      ((mem .tzSign).mpr g5) ((mem .tzHourAbs).mpr g5) ((mem .tzMinuteAbs).mpr g5)
+      (by
+        rcases g6 with ⟨a, b, c'⟩ | ⟨a, b, c'⟩
+        · exact Or.inl ⟨(mem .monthOfYear).mpr a, (mem .dayOfMonth).mpr b, fun h => c' ((mem .dayOfYear).mp h)⟩
+        · exact Or.inr ⟨(mem .dayOfYear).mpr a, fun h => b ((mem .monthOfYear).mp h),
+            fun h => c' ((mem .dayOfMonth).mp h)⟩)
+    refine ⟨q, hstrf, hstrp q hq, by rw [hi, hinst], hqv, ?_, fun _ => ⟨by rw [e1, h4], by rw [e2, h1],
+      by rw [e3, h2], by rw [e4, h3]⟩⟩
+    intro hu
+    rw [hu] at hnu
+    exact absurd (by simp) hnu
+
+/-- **C17 (defaults)**: whenever `strptime` accepts a text under a format (without `%s`) over the
+    supported directives, every part the format does not name takes its default: hour, minute,
+    second 0; month and day 1 (a calendar date, unless the day of the year is named, which gives an
+    ordinal date); the year — the start of the era — 0; and the zone is the parser's assumed zone
+    (`assumed_time_zone`, else UTC when `default_to_unknown_time_zone`, else the local zone).  The
+    result is always a valid point. -/
+theorem C17_defaults (m : Mode) (cfg : PCfg) (loc : TZ) (data fmt : List Char) (items : List FItem) (q : TP)
+    (hf : parseFmt fmt = some items) (hnu : SField.unix ∉ fieldsOf items)
+    (hq : strptime m cfg loc data fmt = .ok q) :
+    (SField.hour ∉ fieldsOf items → q.hh = 0) ∧
+    (SField.minute ∉ fieldsOf items → q.mi = 0) ∧
+    (SField.second ∉ fieldsOf items → q.ss = 0) ∧
+    (SField.zone ∉ fieldsOf items → q.tz = cfg.defaultZone loc) ∧
+    (SField.yday ∉ fieldsOf items → ∃ y mo d, q.date = .cal y mo d ∧
+      (SField.year ∉ fieldsOf items → y = 0) ∧ (SField.month ∉ fieldsOf items → mo = 1) ∧
+      (SField.day ∉ fieldsOf items → d = 1)) ∧
+    (SField.yday ∈ fieldsOf items → ∃ y n, q.date = .ord y n ∧ (SField.year ∉ fieldsOf items → y = 0)) ∧
+    q.Valid m := by
+  obtain ⟨ht, _⟩ := translate_scan fmt items hf
+  unfold strptime at hq
+  rw [ht] at hq
+  simp only at hq
+  by_cases hdup : hasDup (fldsOf (piecesOfItems items)) = true
+  · rw [if_pos hdup] at hq; exact absurd hq (by simp)
+  · rw [if_neg hdup] at hq
+    cases hm : matchPieces (piecesOfItems items) data with
+    | none => rw [hm] at hq; exact absurd hq (by simp)
+    | some b =>
+      rw [hm] at hq
+      simp only at hq
+      have hkeys := keys_of_match _ _ _ hm
+      have habs : ∀ f, sf f ∉ fieldsOf items → b.lookup f = none := fun f hf' =>
+        lookup_absent b f (by rw [hkeys, mem_fldsOf_items]; exact hf')
+      have hnum : ∀ f, sf f ∉ fieldsOf items → numOf b f = none := fun f hf' => by
+        unfold numOf; rw [habs f hf']; rfl
+      unfold assemble at hq
+      rw [habs .unix hnu] at hq
+      simp only at hq
+      obtain ⟨e1, e2, e3, e4, e5, e6⟩ := mkPoint_inv _ _ _ _ _ _ _ _ _ _ _ hq
+      refine ⟨fun h => by rw [e1, hnum .hourOfDay h]; rfl, fun h => by rw [e2, hnum .minuteOfHour h]; rfl,
+        fun h => by rw [e3, hnum .secondOfMinute h]; rfl, ?_, ?_, ?_, e6⟩
+      · intro h
+        rw [e4, any_zone_false b items hkeys h hnu]
+        simp
+      · intro h
+        rw [hnum .dayOfYear h] at e5
+        refine ⟨_, _, _, e5, ?_, ?_, ?_⟩
+        · intro hy; rw [hnum .century hy, hnum .yearOfCentury hy]; rfl
+        · intro hmo; rw [hnum .monthOfYear hmo]; rfl
+        · intro hdd; rw [hnum .dayOfMonth hdd]; rfl
+      · intro h
+        obtain ⟨v, hv⟩ := lookup_present b .dayOfYear (by rw [hkeys, mem_fldsOf_items]; exact h)
+        have hn : numOf b .dayOfYear = some (parseNat v : Int) := by unfold numOf; rw [hv]; rfl
+        rw [hn] at e5
+        refine ⟨_, _, e5, ?_⟩
+        intro hy; rw [hnum .century hy, hnum .yearOfCentury hy]; rfl
+
+/-- `%s` *together with* `%z` is outside `Determined`, and there the round trip can fail: the `%s`
+    translator overwrites the captured offset with the local zone's, but the captured sign is still
+    applied to it.  (Harness: recorded as finding F14 when registered.) -/
+theorem C17_unix_with_zone_counterexample :
+    strftime .greg ⟨.cal 2000 1 1, 0, 0, 0, ⟨-1, 0⟩⟩ "%s %z".toList = .ok "946688400 -0100".toList ∧
+    strptime .greg ⟨none, false⟩ ⟨5, 30⟩ "946688400 -0100".toList "%s %z".toList =
+      .ok ⟨.cal 2000 1 1, 6, 30, 0, ⟨-5, -30⟩⟩ ∧
+    TP.inst .greg ⟨.cal 2000 1 1, 6, 30, 0, ⟨-5, -30⟩⟩ ≠ TP.inst .greg ⟨.cal 2000 1 1, 0, 0, 0, ⟨-1, 0⟩⟩ := by
+  decide +kernel
+
 /-! ## Non-vacuity -/
 
 example : parseFmt "%Y-%m-%dT%H:%M:%S%z %j %s".toList =
@@ -108,5 +231,24 @@ example : strftime .greg ⟨.cal 1969 12 31, 23, 30, 0, ⟨0, -30⟩⟩ "%z %s".
 example : strftime .greg ⟨.cal 10000 1 1, 0, 0, 0, ⟨0, 0⟩⟩ "%F".toList = .error .bounds ∧
     strftime .greg ⟨.cal 10000 1 1, 0, 0, 0, ⟨0, 0⟩⟩ "%m".toList = .ok "01".toList := by decide +kernel
 example : strftime .greg ⟨.cal 2000 1 1, 0, 0, 0, ⟨0, 0⟩⟩ "%Y%Q".toList = .error .syntax := by decide +kernel
+
+example : Determined [.conv .Y, .lit '-', .conv .m, .lit '-', .conv .d, .lit 'T', .conv .H, .lit ':', .conv .M,
+    .lit ':', .conv .S, .conv .z] ∧ Determined [.conv .z, .conv .X, .conv .j, .conv .Y] ∧
+    Determined [.lit 'e', .conv .s, .lit '.'] ∧ ¬ Determined [.conv .F, .conv .X] ∧
+    ¬ Determined [.conv .F, .conv .j, .conv .X, .conv .z] ∧ ¬ Determined [.conv .s, .conv .z] := by decide
+/-- Round trip through adjacent numeric conversions, week date at 24:00 with a negative half-hour offset. -/
+example : strftime .greg ⟨.week 2004 53 5, 24, 0, 0, ⟨0, -30⟩⟩ "%z%Y%j%H%M%S".toList =
+      .ok "-00302004366240000".toList ∧
+    strptime .greg ⟨some ⟨1, 0⟩, false⟩ ⟨5, 30⟩ "-00302004366240000".toList "%z%Y%j%H%M%S".toList =
+      .ok ⟨.ord 2004 366, 24, 0, 0, ⟨0, -30⟩⟩ := by decide +kernel
+/-- The repaired defect F7: a pre-1970 Unix time comes back, in the local zone. -/
+example : strptime .greg ⟨none, false⟩ ⟨-3, -30⟩ "-3600".toList "%s".toList =
+    .ok ⟨.cal 1969 12 31, 19, 30, 0, ⟨-3, -30⟩⟩ := by decide +kernel
+/-- Defaults: only a month. -/
+example : strptime .greg ⟨some ⟨5, 30⟩, false⟩ ⟨0, 0⟩ "03".toList "%m".toList =
+    .ok ⟨.cal 0 3 1, 0, 0, 0, ⟨5, 30⟩⟩ := by decide +kernel
+example : strptime .greg ⟨none, false⟩ ⟨0, 0⟩ "20032002".toList "%Y%Y".toList = .error .conversion ∧
+    strptime .greg ⟨none, false⟩ ⟨0, 0⟩ "2003-02-29".toList "%F".toList = .error .badInput ∧
+    strptime .greg ⟨none, false⟩ ⟨0, 0⟩ "2003".toList "%Y%E".toList = .error .syntax := by decide +kernel
 
 end IsoDT.Props.C17
